@@ -1,6 +1,7 @@
-Require Import PG.Base.Bytes PG.Base.GoSlice PG.Base.Value PG.C15.Lib PG.C15.Types PG.C15.Model PG.C15.Spec.
+Require Import PG.Base.Bytes PG.Base.GoSlice PG.Base.Value PG.C15.Lib PG.C15.Types PG.C15.Model PG.C15.Spec PG.C15.Wrappers.
 Require Extraction. Require ExtrOcamlBasic.
 Extraction "model.ml" rowKeys col_order matchValue matchMap SearchInDump Search cell_matches expected_search
   bytesEqual bytesContains containsIgnoreCase strings_Contains ci_contains
   ScanString scanTable ScanDatabaseDump ScanDumpResult cell_results expected_scan
+  QuoteMeta unquote QuickSearch
   bytes_eqb bytes_leb isort exact.
